@@ -77,6 +77,11 @@ def _mask_use(expr: ast.AST):
                 return ("apply_mask(x, M)", norm(a[1].value), ("flag", k.id, True))
             if isinstance(k, ast.UnaryOp) and isinstance(k.op, ast.Not) and isinstance(k.operand, ast.Name):
                 return ("apply_mask(x, M)", norm(a[1].value), ("flag", k.operand.id, False))
+    # a matrix product with the mask is understood -- and is not a selection of elements
+    if isinstance(expr, ast.BinOp) and isinstance(expr.op, ast.MatMult):
+        for a_, b_ in ((expr.left, expr.right), (expr.right, expr.left)):
+            if norm(a_) == "x" and isinstance(b_, ast.Subscript) and norm(b_.slice) == "index[0]":
+                return ("x@M", norm(b_.value), None)
     return ("other:" + norm(expr)[:60], norm(expr)[:60], None)
 
 
@@ -207,6 +212,10 @@ def rule_projection_pairs(rep: Report, repo: Repo):
                   f"diag {sorted(di)}, offdiag {sorted(oi)}", loc(d))
         # a mask is applied ELEMENT-WISE: `*` is element-wise only for ndarrays (and sparse arrays); sympy matrices and
         # scipy.sparse matrices (`spmatrix`, where `*` is the matrix product) need their own element-wise method
+        for fn_name, table in (("diag", di), ("offdiag", oi)):
+            unknown = [u[0] for u in table.values() if u[0].startswith("other:")]
+            if unknown:
+                raise AnalysisError(RULE, f"{pair}: {fn_name} applies its mask in a form that is not understood: `{unknown[0][6:]}`")
         ELEMENTWISE = {"dense": "x*M", "sparse": "x.multiply(M)", "sympy": "x.multiply_elementwise(M)"}
         for fn_name, table in (("diag", di), ("offdiag", oi)):
             if any(u[2] is None and u[0] in ELEMENTWISE.values() for u in table.values()):
